@@ -9,6 +9,7 @@ import (
 	"strings"
 	"time"
 
+	xsd "git.sr.ht/~mariusor/go-xsd-duration"
 	"github.com/valyala/fastjson"
 )
 
@@ -143,8 +144,10 @@ func JSONGetTime(val *fastjson.Value, prop string) time.Time {
 
 func JSONGetDuration(val *fastjson.Value, prop string) time.Duration {
 	if str := val.Get(prop).GetStringBytes(); len(str) > 0 {
-		// TODO(marius): this needs to be replaced to be compatible with xsd:duration
-		d, _ := time.ParseDuration(string(str))
+		var d time.Duration
+		if err := xsd.Unmarshal(str, &d); err != nil {
+			return 0
+		}
 		return d
 	}
 	return 0
